@@ -215,6 +215,9 @@ type C12Sc struct {
 	Signer    *SignerSc  `json:"signer,omitempty"`
 	Op        int        `json:"op"` // index into opCases; -1 = batch of two
 	Batch     []int      `json:"batch,omitempty"`
+	// BatchOption: 0 Client.Batch; 1..3 Client.BatchOpt with OnBatchErr(Continue / Stop / Undo). The option tells the
+	// server what to do; it does not entitle a response to have fewer items than the request
+	BatchOption int `json:"batch_option,omitempty"`
 	Subst     *RespSubst `json:"subst,omitempty"`
 	Discovery *RespSubst `json:"discovery,omitempty"` // nil: version enforced, no discovery exchange
 	Chunk     int        `json:"chunk,omitempty"`
@@ -311,6 +314,7 @@ func genC12(g *simrt.Tape, tier string) any {
 		if g.Draw(2) == 1 {
 			sc.Batch = append(sc.Batch, g.Draw(len(opCases)-1))
 		}
+		sc.BatchOption = g.Draw(4)
 	}
 	if g.Draw(8) != 0 {
 		sc.Subst = genRespSubst(g)
@@ -355,6 +359,16 @@ func c12Floor(tier string) []*C12Sc {
 	for op := range opCases {
 		for _, sb := range singles {
 			out = append(out, &C12Sc{Op: op, Subst: sb})
+		}
+	}
+	// batches under every continuation option, with self-consistent truncated / extended / failed replies
+	for opt := 0; opt < 4; opt++ {
+		for _, sb := range []*RespSubst{nil, {ItemsDelta: -1}, {ItemsDelta: -9}, {ItemsDelta: 1}, {HeaderDelta: 1}, {SwapIDs: true},
+			{Items: []ItemSubst{{Status: 1, Reason: 1, Message: true, Payload: "absent"}, {}}},
+			{Items: []ItemSubst{{}, {Status: 1, Reason: 1, Message: true, Payload: "absent"}}},
+			{ItemsDelta: -1, Items: []ItemSubst{{Status: 1, Reason: 1, Message: true, Payload: "absent"}, {}}}} {
+			out = append(out, &C12Sc{Op: -1, Batch: []int{0, 10}, BatchOption: opt, Subst: sb})
+			out = append(out, &C12Sc{Op: -1, Batch: []int{3, 0, 7}, BatchOption: opt, Subst: sb})
 		}
 	}
 	// the crypto.Signer helper: every algorithm x key material x signature length, and every single substitution at every exchange
@@ -637,7 +651,12 @@ func execC12(x *X, scAny any) {
 				pl := requestPayloadOf(c, oi)
 				pls = append(pls, pl)
 			}
-			res.vals, res.err = c.Batch(ctx, pls...)
+			if sc.BatchOption > 0 {
+				opt := []kmip.BatchErrorContinuationOption{kmip.BatchErrorContinuationOptionContinue, kmip.BatchErrorContinuationOptionStop, kmip.BatchErrorContinuationOptionUndo}[(sc.BatchOption-1)%3]
+				res.vals, res.err = c.BatchOpt(ctx, pls, kmipclient.OnBatchErr(opt))
+			} else {
+				res.vals, res.err = c.Batch(ctx, pls...)
+			}
 		}
 		res.done = true
 		_ = c.Close()
